@@ -3,7 +3,7 @@
 (* Which logged events are steps of the specification, per property.        *)
 (* e is one JSON event of the harness; P the property id.                   *)
 (***************************************************************************)
-EXTENDS Sem
+EXTENDS Sem, EuclidAlg
 
 ArithExact(e) ==
   LET f == LF(e.L) IN
@@ -23,4 +23,17 @@ AcceptArith(e, P) ==
 
 Accept(e, P) ==
   CASE e.k \in {"bin", "bini", "un"} -> AcceptArith(e, P)
+
+(***************************************************************************)
+(* Named deviations (known findings).  Deviation(e, P) is consulted only    *)
+(* for an event that layer M rejects; it names the recorded-defective       *)
+(* design that reproduces the logged outcome bit for bit, or "" if none     *)
+(* does -- in which case the event is a violation.                          *)
+(***************************************************************************)
+Deviation(e, P) ==
+  IF P = "C07" /\ e.k \in {"bin", "bini"} /\ e.op \in {"div_euclid", "div_euclid_int"}
+     /\ ~ZIsZero(IF e.k = "bin" THEN ZJ(e.b) ELSE ZJ(e.n))
+     /\ CodedFormsMatch(e.k, e.o, ZJ(e.a), IF e.k = "bin" THEN ZJ(e.b) ELSE ZJ(e.n), e.L, e.pr)
+  THEN "div_euclid_as_coded"
+  ELSE ""
 =============================================================================
